@@ -59,9 +59,17 @@ class GeometricMTF(SpotDiagram):
 
         if wavelength == 'primary':
             wavelength = optic.primary_wavelength
+        self.max_freq = max_freq
         if max_freq == 'cutoff':
+            # cut-off of the working F-number (finite conjugates included,
+            # as in FFTMTF._get_fno)
+            FNO = optic.paraxial.FNO()
+            if not optic.object_surface.is_infinite:
+                p = optic.paraxial.XPD() / optic.paraxial.EPD()
+                m = optic.paraxial.magnification()
+                FNO *= (1 + np.abs(m) / p)
             # wavelength must be converted to mm for frequency units cycles/mm
-            self.max_freq = 1 / (wavelength * 1e-3 * optic.paraxial.FNO())
+            self.max_freq = 1 / (wavelength * 1e-3 * FNO)
 
         super().__init__(optic, fields, [wavelength], num_rays, distribution)
 
